@@ -521,7 +521,8 @@ fn gen_pre(rng: &mut Rng) -> Vec<(Pos, Pos)> {
     if !rng.chance(1, 4) {
         return vec![];
     }
-    (0..rng.range(1, 2)).map(|_| gen_window(rng)).collect()
+    let n = if rng.chance(1, 5) { rng.range(3, 6) } else { rng.range(1, 2) };
+    (0..n).map(|_| gen_window(rng)).collect()
 }
 
 struct Case {
